@@ -157,6 +157,26 @@ def gen_benign() -> str:
             f"(`tools/run_benign.py --record` at /repo {res.get('_head', '?')}).\n")
 
 
+def gen_wb() -> str:
+    rp = ROOT / "review" / "wb" / "RESULTS.json"
+    res = json.loads(rp.read_text()) if rp.exists() else {}
+    rows = ["| property | mutants: caught with a replay | caught, no failing input | missed | no longer apply | harmless rewrites: quiet | `no-failing-input-found` | false alarms |", "|---|---|---|---|---|---|---|---|"]
+    tot = [0] * 7
+    for prop in sorted(k for k in res if not k.startswith("_")):
+        m = {k: v for k, v in res[prop].items() if k.startswith("m")}
+        r = {k: v for k, v in res[prop].items() if k.startswith("r")}
+        def n(d, pre):
+            return sum(1 for v in d.values() if v.startswith(pre))
+        row = [n(m, "caught VIOLATION") + n(m, "caught V"), n(m, "caught-no-input"), n(m, "MISSED"), n(m, "n/a"), n(r, "quiet"), n(r, "no-input"), n(r, "FALSE-ALARM")]
+        row[0] = sum(1 for v in m.values() if v.startswith("caught ") )
+        for i, x in enumerate(row):
+            tot[i] += x
+        missed = " ".join(k for k, v in m.items() if v.startswith("MISSED")) 
+        rows.append(f"| {prop} | {row[0]} | {row[1]} | {row[2]}{(' (' + missed + ')') if missed else ''} | {row[3]} | {row[4]} | {row[5]} | {row[6]} |")
+    rows.append(f"| **all** | **{tot[0]}** | **{tot[1]}** | **{tot[2]}** | **{tot[3]}** | **{tot[4]}** | **{tot[5]}** | **{tot[6]}** |")
+    return "\n".join(rows) + f"\n\nRecorded by `tools/run_wb.py --record` at /repo {res.get('_head', '?')}; what each mutant is: `review/wb/Cxx/NOTES.md`.\n"
+
+
 def gen_stats() -> str:
     def loc(globpat: str) -> int:
         return sum(sum(1 for _ in f.open()) for f in (ROOT / "lean" / "Kopf").glob(globpat))
@@ -185,7 +205,7 @@ def gen_stats() -> str:
 def main() -> int:
     p = ROOT / "DESIGN.md"
     s = p.read_text()
-    for key, fn in (("STATS", gen_stats), ("PROPS", gen_props), ("FIXED", gen_fixed), ("OPEN", gen_open), ("SEEDS", gen_seeds), ("BENIGN", gen_benign)):
+    for key, fn in (("STATS", gen_stats), ("PROPS", gen_props), ("FIXED", gen_fixed), ("OPEN", gen_open), ("SEEDS", gen_seeds), ("BENIGN", gen_benign), ("WB", gen_wb)):
         a, b = f"<!-- GEN:{key} begin -->", f"<!-- GEN:{key} end -->"
         if a not in s or b not in s:
             print(f"marker {key} missing", file=sys.stderr)
